@@ -594,7 +594,8 @@ Definition run_disk (c : case) : bytes :=
           let dout := join 59 ((dash ++ eq_ :: id_out (qr_id root) ++ eq_ :: ints_out (qr_chunks root))
                                :: map (fun d => hex (qd_name d) ++ eq_ :: id_out (qd_id d) ++ eq_ :: ints_out (qd_chunks d)) dirs) in
           (* phase C: restart *)
-          let listed := list_buffer_ids (root_entries umask root) in
+          (* the harness sorts the listed ids: their order is not part of the contract (the caller builds a set) *)
+          let listed := sort_by (fun x => x) (list_buffer_ids (root_entries umask root)) in
           match orch_init parts n (dedup [] listed) with
           | Ok g2 =>
             str_ok ++ colon :: join 59 (map (fun p => hex (p_id p)) (g_pipes g)) ++ 35 :: dout ++ 35 ::
@@ -626,7 +627,7 @@ Fixpoint list_entries (ss : list bytes) (zs : list Z) : option (list fsentry) :=
 
 Definition run_list (c : case) : bytes :=
   match list_entries (c_sargs c) (c_zargs c) with
-  | Some es => str_ok ++ colon :: join 59 (map hex (list_buffer_ids es))
+  | Some es => str_ok ++ colon :: join 59 (map hex (sort_by (fun x => x) (list_buffer_ids es)))
   | None => str_badcase
   end.
 
